@@ -262,7 +262,7 @@ def c02fs : FS := [
   (["t".toList, "src".toList, "p".toList], .special)]
 
 def c02src : Str := "/t/src".toList
-def c02opts : PackOpts := ⟨false, false, []⟩
+def c02opts : PackOpts := { dereference := false, applyIgnore := false, allow := [] }
 
 /-- what `Pack` writes: name-sorted pre-order, `d/` before `d/f`, the empty directory `e/`
 present, nothing for the fifo `p`; modes masked, times rounded (1.5 s ↦ 2, 3.6 s ↦ 4, 2.4 s ↦ 2,
